@@ -16,6 +16,7 @@ EXPLANATION = (
     "tree tickets change only by acq_rel compare-exchange (R4). Not decided: the tournament-tree arithmetic of "
     "barrier_algorithm_base::arrive for every participant count.")
 ASSUMPTIONS = ["detail::condition_variable behaves as decided in C02/C07", "util::yield_while(f) returns only when f() is false"]
+THOROUGH_CONFIGS = [["-UNDEBUG", "-DPIKA_DEBUG"]]
 FLOORS = {"C09.R1": 10, "C09.R2": 4, "C09.R3": 5, "C09.R4": 6}
 
 LOCK = "this->mtx_.data_"
@@ -118,7 +119,10 @@ def run(rep, tier):
             wt = [(b, i, ev) for b, i, ev in fn.all_events() if ev.get("k") == "call" and callee_short(ev) == "wait" and "cond_" in P(ev.get("recv"))]
             if len(wt) != 1:
                 raise AnalysisBroken("latch::wait: expected one cond_.wait")
-            A = [a for _, a, _ in __import__("engine.kinds", fromlist=["cond_leaves"]).cond_leaves(fn) if "counter_.load(" in a]
+            from engine.core import dominators
+            dom = set(dominators(fn).get(wt[0][0], set())) - {wt[0][0]}
+            # the test that decides whether to wait dominates the wait (debug assertions after it do not)
+            A = [a for b_, a, _ in __import__("engine.kinds", fromlist=["cond_leaves"]).cond_leaves(fn) if "counter_.load(" in a and b_ in dom]
             if not A:
                 raise AnalysisBroken("latch::wait: counter test not found")
             A = A[0]
